@@ -115,10 +115,27 @@ def enc_spec(spec):
     raise ValueError(k)
 
 
-def create(F, spec):
-    """calls the new_* method of the real formula; returns the group object"""
+def create(F, spec, pool=None):
+    """calls the new_* method of the real formula; returns the group object.  With a `pool` (one per history) a graph
+    that was already given to an earlier group of the history is passed again as the SAME object"""
     k = spec["kind"]
     kw = {} if spec.get("label") is None else {"label": spec["label"]}
+    if pool is not None and "G" in spec:
+        maker = {"bipartite": mk_bipartite, "sparse_mapping": mk_bipartite, "graph": mk_graph, "digraph": mk_digraph}[k]
+        key = (maker.__name__, repr(spec["G"]))
+        if key not in pool:
+            pool[key] = maker(spec["G"])
+        G = pool[key]
+        if k == "bipartite":
+            return F.new_bipartite_edges(G, **kw)
+        if k == "sparse_mapping":
+            return F.new_sparse_mapping(G, **kw)
+        if k == "graph":
+            return F.new_graph_edges(G, **kw)
+        sb = spec.get("sortby", "pred")
+        if sb == "pred" and not spec.get("explicit_sortby"):
+            return F.new_digraph_edges(G, **kw)
+        return F.new_digraph_edges(G, sortby={"other": "foo"}.get(sb, sb), **kw)
     if k == "variable":
         F.new_variable(**kw)
         return F._groups[-1]
@@ -222,6 +239,62 @@ def _pairs_domain(spec):
     return None
 
 
+def coordinate_windows(idxs):
+    """per coordinate of the legal indices: the values just outside the occupied interval [lo, hi] in both directions,
+    their mirror images below zero (Python sequences accept negative positions: -1 .. -hi must NOT be taken for hi .. 1),
+    zero, and the interior values (which are outside the domain of sparse groups when combined with the other coordinates)"""
+    if not idxs or not idxs[0]:
+        return []
+    out = []
+    for j in range(len(idxs[0])):
+        col = [t[j] for t in idxs]
+        lo, hi = min(col), max(col)
+        w = {lo - 2, lo - 1, hi + 1, hi + 2, 0, -1, -2, -lo, -hi, -hi - 1, -hi - 2, -(hi // 2) if hi > 1 else -1}
+        w.update(range(lo, min(hi, lo + 6) + 1))
+        w.update(range(max(lo, hi - 2), hi + 1))
+        out.append(sorted(w))
+    return out
+
+
+def outside_neighbours(spec, idxs, rng, cap):
+    """indices that differ from a legal index in ONE coordinate, pushed out of the domain in every direction, plus a few
+    that are outside in all coordinates at once and the legal indices with the wrong number of coordinates;
+    only the ones that are not legal are returned, no repetitions, at most `cap`"""
+    if not idxs or not idxs[0]:
+        return []
+    known = set(idxs)
+    if spec["kind"] == "graph":
+        known |= {tuple(reversed(t)) for t in idxs}
+    wins = coordinate_windows(idxs)
+    base = idxs if len(idxs) <= 6 else [idxs[0], idxs[-1]] + rng.sample(idxs, 4)
+    out = []
+    for t in base:
+        for j, w in enumerate(wins):
+            for x in w:
+                c = tuple(x if i == j else y for i, y in enumerate(t))
+                if c not in known:
+                    out.append(c)
+    for _ in range(6):
+        c = tuple(rng.choice(w) for w in wins)
+        if c not in known:
+            out.append(c)
+    t = rng.choice(idxs)
+    out += [tuple(-x for x in t), t + (t[-1],), t[:-1]]
+    out = [c for c in dict.fromkeys(out) if c not in known and c != ()]
+    if len(out) > cap:
+        # keep every direction of every coordinate represented: sample, but never drop the negative mirrors
+        neg = [c for c in out if any(x < 0 for x in c)]
+        rest = [c for c in out if not any(x < 0 for x in c)]
+        rng.shuffle(neg)
+        rng.shuffle(rest)
+        out = neg[:cap // 2] + rest[:cap - min(len(neg), cap // 2)]
+    return out
+
+
+# values of the wrong type put in place of a coordinate (oracle only: the model speaks about integers and None)
+WRONG_TYPE = [1.5, -0.5, "1", "", (1,), [1], b"1", float("nan"), float("inf"), 1 + 1j, True, 1.0, 2.0, False]
+
+
 def queries_for(spec, off, g, rng, cap=60):
     """the query list for a created group (g is the real object, used only to enumerate its
     legal indices; the same list is sent to the model)"""
@@ -243,9 +316,13 @@ def queries_for(spec, off, g, rng, cap=60):
     for v in vsample:
         qs.append(("to_index", v))
         qs.append(("to_index", -v))
-    for v in (0, start - 1, -(start - 1), start + n, -(start + n), start + n + 5, start, -start):
+    for v in (0, start - 1, -(start - 1), start + n, -(start + n), start + n + 5, start, -start,
+              start - 2, -(start + n + 1), 2 * start + n, -(2 * start + n), n, -n, 2 ** 31, -2 ** 63, 2 ** 64 + start):
         qs.append(("to_index", v))
         qs.append(("contains", v))
+    # out of the domain in every direction, one coordinate at a time, through every access path
+    for t in outside_neighbours(spec, idxs, rng, 40):
+        qs += [("call", list(t)), ("indices", list(t)), ("label", list(t))]
     # illegal / wildcard patterns
     if k == "variable":
         qs += [("call", [1]), ("label", [1]), ("indices", [1]), ("indices", [None])]
@@ -461,15 +538,28 @@ def group_oracle(spec, off, rng_seed):
             if lit in g:
                 return {"contains_foreign_literal": lit}
         known = set(idxs)
-        for t in foreign_indices(spec, known, common.sub_rng(rng_seed, "foreign")):
+        outside = foreign_indices(spec, known, common.sub_rng(rng_seed, "foreign")) + \
+            outside_neighbours(spec, idxs, common.sub_rng(rng_seed, "outside"), 120)
+        for t in outside:
             if spec["kind"] == "graph" and tuple(sorted(t)) in known:
                 continue
-            r = raises_value_error(lambda: g(*t))
+            for path, fn in (("call", g), ("indices", g.indices), ("label", g.label)):
+                r = raises_value_error(lambda: fn(*t))
+                if r is not True:
+                    return {path + "_accepts_index_outside_domain": list(t), "outcome": r,
+                            "legal_indices": [list(x) for x in idxs[:12]]}
+        # 4b. far away literals, and literals / coordinates of the wrong type: never silently an identifier or an index
+        for lit in (2 ** 31, -2 ** 31, 2 ** 64 + start, -(2 ** 64) - start, 2 * start + n + 1, -(2 * start + n + 1)):
+            if abs(lit) in range(start, start + n):
+                continue
+            r = raises_value_error(lambda: g.to_index(lit))
             if r is not True:
-                return {"call_accepts_index_outside_domain": list(t), "outcome": r}
-            r = raises_value_error(lambda: g.indices(*t))
-            if r is not True:
-                return {"indices_accepts_index_outside_domain": list(t), "outcome": r}
+                return {"to_index_accepts_foreign_literal": lit, "outcome": r}
+            if lit in g:
+                return {"contains_foreign_literal": lit}
+        r = wrong_type_probe(spec, g, idxs, start)
+        if r is not None:
+            return r
         # 5. wildcard patterns
         if spec["kind"] == "block" or _pairs_domain(spec) is not None:
             arity = len(spec["ranges"]) if spec["kind"] == "block" else 2
@@ -488,6 +578,58 @@ def group_oracle(spec, off, rng_seed):
                     return {"pattern": pat, "ids": gotids}
         return None
     return oracle
+
+
+def same_index(a, b):
+    try:
+        return len(a) == len(b) and all(type(x) in (int, bool, float, complex) and x == y for x, y in zip(a, b))
+    except Exception:
+        return False
+
+
+def wrong_type_probe(spec, g, idxs, start):
+    """coordinates / literals that are not integers.  Python compares numbers by value (True == 1 == 1.0), so a value EQUAL
+    to a legal coordinate may be taken for it; anything else must not be converted into an identifier (resp. an index):
+    the call either raises or — never — answers.  Only `__call__` and `to_index`/`in` are judged: `indices()` and `label()`
+    echo their arguments (block / mapping groups accept 1.5 there; recorded in notes/C11.md, outside the typed domain)."""
+    if not idxs or not idxs[0] or spec["kind"] == "variable":
+        return None
+    ids = {t: start + pos for pos, t in enumerate(idxs)}
+    for t in (idxs[0], idxs[-1]):
+        for j in range(len(t)):
+            for w in WRONG_TYPE:
+                c = tuple(w if i == j else y for i, y in enumerate(t))
+                try:
+                    v = g(*c)
+                    if not is_scalar(v):
+                        v = list(v)
+                except Exception:
+                    continue          # rejected
+                twins = [x for x in idxs if same_index(c, x)]
+                if spec["kind"] == "graph":
+                    twins += [x for x in idxs if same_index(tuple(reversed(c)), x)]
+                if not twins:
+                    return {"call_accepts_coordinate_of_wrong_type": repr(c), "answer": repr(v)[:80]}
+                if v != ids[twins[0]]:
+                    return {"call_with_equal_valued_coordinate": repr(c), "answer": repr(v)[:80], "identifier_of_the_index": ids[twins[0]]}
+    n = len(idxs)
+    for w in [1.5, "1", None, (start,), float(start), start + 0.5, float("nan"), b"1", -float(start), [start]]:
+        try:
+            t = g.to_index(w)
+            t = tuple(t)
+        except Exception:
+            t = None
+        if t is not None:
+            ok_ = type(w) is float and w == int(w) and abs(int(w)) in range(start, start + n) and t == idxs[abs(int(w)) - start]
+            if not ok_:
+                return {"to_index_accepts_literal_of_wrong_type": repr(w), "answer": repr(t)}
+        try:
+            inside = w in g
+        except Exception:
+            inside = False
+        if inside and not (type(w) is float and w == int(w) and abs(int(w)) in range(start, start + n)):
+            return {"contains_literal_of_wrong_type": repr(w)}
+    return None
 
 
 def pattern_in_domain(spec, pat):
@@ -595,6 +737,11 @@ def enc_op(op):
         return [0, 1 if op["check"] else 0] + enc_list(op["lits"])
     if op["op"] == "update":
         return [1, op["n"]]
+    if op["op"] == "use":
+        out = [3, 1 if op["check"] else 0, len(op["picks"])]
+        for gi, pos, sign in op["picks"]:
+            out += [gi, pos, sign]
+        return out
     return [2] + enc_spec(op["spec"])
 
 
@@ -610,8 +757,42 @@ def max_mentioned(F):
     return m
 
 
-def apply_op(F, op):
-    """returns the outcome string"""
+def handed_out(created, picks):
+    """the literals of a `use` operation: sign * (the identifier that the gi-th group created so far gives to its pos-th
+    legal index), looked up the way a formula author does it: `g(*index)` for an index enumerated by `g.indices()`.
+    Returns [(group, index, identifier or None if the lookup failed)]"""
+    out = []
+    for gi, pos, sign in picks:
+        if not created:
+            continue
+        g = created[gi % len(created)]
+        try:
+            idxs = [tuple(t) for t in g.indices()]
+        except Exception:
+            continue
+        if not idxs:
+            continue
+        t = idxs[pos % len(idxs)]
+        try:
+            v = g(*t)
+            if not is_scalar(v):
+                v = list(v)[0]        # word group with k = 0: g() is the whole (one element) sequence
+            out.append((g, t, sign * v))
+        except Exception:
+            out.append((g, t, None))
+    return out
+
+
+class Created(list):
+    """the groups returned by the successful new_* calls of one history, plus the graph objects given to them"""
+
+    def __init__(self):
+        list.__init__(self)
+        self.pool = {}
+
+
+def apply_op(F, op, created=None):
+    """returns the outcome string; `created` collects the groups returned by the successful new_* calls"""
     try:
         if op["op"] == "clause":
             F.add_clause(list(op["lits"]), check=op["check"])
@@ -619,7 +800,14 @@ def apply_op(F, op):
         if op["op"] == "update":
             F.update_variable_number(op["n"])
             return "-"
-        g = create(F, op["spec"])
+        if op["op"] == "use":
+            lits = [l for _, _, l in handed_out(created or [], op["picks"]) if l is not None]
+            F.add_clause(lits, check=op["check"])
+            return "-"
+        # histories that collect their groups also hand the same graph object to every group made from the same graph
+        g = create(F, op["spec"], pool=getattr(created, "pool", None))
+        if created is not None:
+            created.append(g)
         return fmt_outcome(g)
     except Exception as e:
         return exc(e)
@@ -673,6 +861,7 @@ def build_hist(info, prop="C11"):
         unnamed = False
         zero_kept = False
         unchecked_beyond = False
+        created = Created()
         for op in ops:
             if op["op"] == "group" and op["spec"]["kind"] == "variable":
                 if uncovered(F):
@@ -684,7 +873,7 @@ def build_hist(info, prop="C11"):
                     zero_kept = True
                 if not op["check"] and any(abs(l) > F.number_of_variables() for l in op["lits"]):
                     unchecked_beyond = True
-            out = apply_op(F, op)
+            out = apply_op(F, op, created)
             parts.append("{}:{}:{}".format(F.number_of_variables(), max_mentioned(F), out))
         state.update(gap_single=gap_single, unnamed=unnamed, zero_kept=zero_kept, unchecked_beyond=unchecked_beyond)
         if prop == "C11":
@@ -701,8 +890,24 @@ def build_hist(info, prop="C11"):
 
     def oracle_c11():
         F = initial_formula(init)
+        created = Created()
         for op in ops:
-            apply_op(F, op)
+            if op["op"] == "use":
+                # index -> identifier -> index on the groups as they are in the MIDDLE of a history
+                for g, t, lit in handed_out(created, op["picks"]):
+                    if lit is None:
+                        return {"group": type(g).__name__, "legal_index_rejected": list(t)}
+                    pos = [tuple(x) for x in g.indices()].index(t)
+                    if abs(lit) != g.ids.start + pos:
+                        return {"group": type(g).__name__, "ids": [g.ids.start, g.ids.stop - 1], "index": list(t),
+                                "position_in_indices": pos, "identifier": abs(lit)}
+                    try:
+                        back = tuple(g.to_index(lit))
+                    except Exception as e:
+                        return {"group": type(g).__name__, "index": list(t), "identifier": lit, "to_index_raised": type(e).__name__}
+                    if back != t:
+                        return {"group": type(g).__name__, "index": list(t), "identifier": lit, "to_index": list(back)}
+            apply_op(F, op, created)
         try:
             names = list(F.all_variable_labels(dfmt))
         except Exception as e:
@@ -775,9 +980,25 @@ def build_hist(info, prop="C11"):
 
         F.add_clause = add_clause
         F._add_variable_group = add_group
+        created = Created()
+        at_creation = {}
         for op in ops:
             before = F.number_of_variables()
-            apply_op(F, op)
+            if op["op"] == "use":
+                # the identifiers a group HANDS OUT are the ones it allocated: inside its own range, hence fresh
+                for g, t, lit in handed_out(created, op["picks"]):
+                    if lit is None:
+                        continue
+                    # (after an unchecked clause beyond the count the caller, not the group, is responsible for a clash)
+                    old = at_creation.get(id(g), frozenset()) if not precondition_broken else frozenset()
+                    if abs(lit) not in g.ids or abs(lit) in old or abs(lit) > F.number_of_variables():
+                        return {"group": type(g).__name__, "allocated": [g.ids.start, g.ids.stop - 1], "index": list(t),
+                                "hands_out_identifier": abs(lit), "mentioned_before_the_group_was_created": abs(lit) in old,
+                                "declared_variables": F.number_of_variables()}
+            ncreated = len(created)
+            apply_op(F, op, created)
+            if len(created) > ncreated:
+                at_creation[id(created[-1])] = frozenset(mentioned)
             if F.number_of_variables() < before:
                 return {"number_of_variables_decreased": [before, F.number_of_variables()]}
         if precondition_broken:
@@ -955,6 +1176,7 @@ def gen_hist(rng, clean):
     nops = rng.randint(1, 14)
     ops = []
     dirty = False
+    ngroups = 0
     for _ in range(nops):
         c = rng.random()
         if c < .5:
@@ -962,11 +1184,22 @@ def gen_hist(rng, clean):
             if clean and kind == "variable" and dirty:
                 kind = "block"
             spec = gen_spec(rng, kind, small=True)
+            earlier = [o["spec"] for o in ops if o["op"] == "group" and o["spec"]["kind"] != "variable"]
+            if earlier and rng.random() < .35:
+                # the same kind of group with the same shape once more, further up in the same formula
+                spec = dict(rng.choice(earlier))
+                kind = spec["kind"]
             if clean and kind == "variable":
                 spec["label"] = rng.choice(["X", "y_{1}", "z"])
             ops.append({"op": "group", "spec": spec})
+            ngroups += 1
             if known_nonempty(spec):
                 dirty = False
+        elif c < .68 and ngroups:
+            # a clause written with the variables of the groups made so far (looked up through the groups)
+            ops.append({"op": "use", "check": rng.random() < .5,
+                        "picks": [[rng.randrange(ngroups) if rng.random() < .5 else ngroups - 1, rng.randrange(40),
+                                   rng.choice([1, -1])] for _ in range(rng.randint(1, 4))]})
         elif c < .8:
             n = rng.choice([0, 1, 1, 2, 3, 4])
             lits = [rng.choice([1, -1]) * rng.choice([1, 2, 3, 5, 8, 13, 30]) for _ in range(n)]
@@ -1052,9 +1285,11 @@ def group_infos(ctx):
     rng = common.sub_rng(seed, "C11", "group")
     infos = [dict(c, qseed=0) for c in CORPUS_GROUPS]
     reps = 22 if tier == "quick" else 260
+    # offsets: the fixed list plus the neighbourhood of the integer constants of the current source (thresholds, cache sizes)
+    offsets = OFFSETS + common.probe_sizes(["formula/variables.py", "formula/basecnf.py"], 2, 10 ** 6)[:12]
     for kind in KINDS:
         for i in range(reps):
-            infos.append({"spec": gen_spec(rng, kind), "off": rng.choice(OFFSETS), "qseed": rng.randrange(10 ** 6)})
+            infos.append({"spec": gen_spec(rng, kind), "off": rng.choice(offsets), "qseed": rng.randrange(10 ** 6)})
     return infos
 
 
